@@ -3,7 +3,7 @@
     witness. *)
 From Coq Require Import String Ascii List Bool Arith ZArith.
 From Raven Require Import Base.GoStr Base.GoStrZ Model.SeqSet Model.Expunge Spec.SeqSet Spec.SeqSetFindings
-  Proof.SeqSetStr Proof.SeqSetParse Proof.ExpungeReplay Proof.C09Findings.
+  Proof.SeqSetStr Proof.SeqSetParse Proof.ExpungeReplay Proof.C09Findings Proof.JunkStore.
 Import ListNotations.
 Local Open Scope Z_scope.
 
@@ -28,7 +28,7 @@ Print Assumptions c09_uid_set_exact.
 Theorem c09_expunge_replay : forall mbox : list msg,
   NoDup (map m_id mbox) ->
   let '(notices, mbox') := handle_expunge mbox in
-  mbox' = filter (fun m => negb (like_deleted (m_flags m))) mbox /\ replay notices mbox = mbox'.
+  mbox' = filter (fun m => negb (sql_deleted (m_flags m))) mbox /\ replay notices mbox = mbox'.
 Proof. exact expunge_replay. Qed.
 Print Assumptions c09_expunge_replay.
 
@@ -40,7 +40,7 @@ Theorem c09_uid_expunge_replay : forall (set : str) (mbox : list msg),
 Proof. exact uid_expunge_replay. Qed.
 Print Assumptions c09_uid_expunge_replay.
 
-(** ... and outside class deleted_substring the \Deleted test is the flag atom *)
+(** ... and outside class deleted_case (the SQL whole-word test is exact about case) the \Deleted test is the flag atom *)
 Theorem c09_expunge_exact_deleted : forall mbox : list msg,
   NoDup (map m_id mbox) -> classify_expunge mbox = None ->
   snd (handle_expunge mbox) = filter (fun m => negb (has_deleted (m_flags m))) mbox
@@ -69,6 +69,18 @@ Print Assumptions c09_uid_rank_is_position.
 Theorem c09_history_ascending : forall h : list hop, ascending (map m_uid (rows (run_history h))).
 Proof. exact history_ascending. Qed.
 Print Assumptions c09_history_ascending.
+
+(** STORE <set> +FLAGS (Junk) (auto-move, after d84f911): exactly the denoted
+    messages leave the mailbox and the EXPUNGE numbers replay to the new view *)
+Theorem c09_junk_store_exact : forall (s : seqset) (mbox : list msg),
+  wf s = true -> Z.of_nat (length mbox) <= max_int64 ->
+  ascending (map m_uid mbox) -> NoDup (map m_id mbox) ->
+  let '(notices, ids, mbox') := handle_store_junk (print s) mbox in
+  replay notices mbox = mbox'
+  /\ forall m, In m mbox' <->
+       (In m mbox /\ ~ exists i, In i (addressed s (Z.of_nat (length mbox))) /\ nth1 (map m_uid mbox) i 0 = m_uid m).
+Proof. exact junk_store_exact. Qed.
+Print Assumptions c09_junk_store_exact.
 
 (** SEARCH <set> and UID SEARCH UID <set> outside their finding classes *)
 Theorem c09_search_set_exact : forall (s : seqset) (total : Z),
@@ -151,24 +163,14 @@ Theorem c09_refuted_uidsearch_shape : exists s uids,
 Proof. exists [One (Num 2)], [1;2;3]. vm_compute. repeat split; reflexivity. Qed.
 Print Assumptions c09_refuted_uidsearch_shape.
 
-Theorem c09_refuted_deleted_substring : exists mbox,
-  NoDup (map m_id mbox) /\ classify_expunge mbox = Some F_deleted_substring
-  /\ snd (handle_expunge mbox) = [] /\ filter (fun m => negb (has_deleted (m_flags m))) mbox = mbox /\ mbox <> [].
+Theorem c09_refuted_deleted_case : exists mbox,
+  NoDup (map m_id mbox) /\ classify_expunge mbox = Some F_deleted_case
+  /\ snd (handle_expunge mbox) = mbox /\ filter (fun m => negb (has_deleted (m_flags m))) mbox = [] /\ mbox <> [].
 Proof.
-  exists [{| m_id := 1; m_uid := 1; m_flags := S_ "\DeletedX" |}].
+  exists [{| m_id := 1; m_uid := 1; m_flags := S_ "\deleted" |}].
   split; [repeat constructor; simpl; tauto|]. vm_compute. repeat split; try reflexivity. discriminate.
 Qed.
-Print Assumptions c09_refuted_deleted_substring.
-
-Theorem c09_refuted_junk_move_shift : exists s mbox,
-  wf s = true /\ classify_junk_store s (Z.of_nat (length mbox)) = Some F_junk_move_shift
-  /\ junk_store_ok s mbox (snd (fst (store_junk_loop (parse_seqset_db (print s) (Z.of_nat (length mbox))) mbox))) = false.
-Proof.
-  exists [Range (Num 1) (Num 2)],
-    [{| m_id := 1; m_uid := 1; m_flags := [] |}; {| m_id := 2; m_uid := 2; m_flags := [] |}; {| m_id := 3; m_uid := 3; m_flags := [] |}].
-  vm_compute. repeat split; reflexivity.
-Qed.
-Print Assumptions c09_refuted_junk_move_shift.
+Print Assumptions c09_refuted_deleted_case.
 
 Theorem c09_refuted_noop_notices : exists old new,
   classify_noop old new = Some F_noop_notices /\ noop_ok old new = false.
@@ -183,6 +185,12 @@ Example c09_copy_example :
   /\ fetch_inline (S_ "3") [4; 6; 9] = Some [(3, 9)].
 Proof. vm_compute. split; reflexivity. Qed.
 
+Example c09_regression_deletedx_not_selected :
+  sql_deleted (S_ "\DeletedX") = false /\ sql_deleted (S_ "\Seen \Deleted") = true
+  /\ (let mb := [{| m_id := 1; m_uid := 1; m_flags := [] |}; {| m_id := 2; m_uid := 2; m_flags := [] |}; {| m_id := 3; m_uid := 3; m_flags := [] |}] in
+      handle_store_junk (S_ "1:2") mb = ([1; 1], [1; 2], [{| m_id := 3; m_uid := 3; m_flags := [] |}])).
+Proof. vm_compute. repeat split; reflexivity. Qed.
+
 (** ---- non-vacuity ---- *)
 Example c09_wf_example : wf [Range (Num 4) (Num 2); One Star; Range (Num 7) Star] = true.
 Proof. reflexivity. Qed.
@@ -196,5 +204,5 @@ Example c09_expunge_example :
   fst (handle_expunge mb) = [1; 2] /\ map m_uid (snd (handle_expunge mb)) = [5] /\ classify_expunge mb = None.
 Proof. vm_compute. repeat split; reflexivity. Qed.
 Example c09_history_example :
-  map m_uid (rows (run_history [HAppend []; HAppend (S_ "\Deleted"); HAppend []; HExpunge; HCopyIn []; HAppend []])) = [1; 3; 4].
+  map m_uid (rows (run_history [HAppend []; HAppend (S_ "\Deleted"); HAppend []; HExpunge; HCopyIn []; HAppend []])) = [1; 3; 4; 5].
 Proof. vm_compute. reflexivity. Qed.
